@@ -20,6 +20,7 @@
 use std::{marker::PhantomData, sync::Arc};
 
 use serde::Deserialize;
+use winter_maybe_async::maybe_async;
 use winterfell::{
     crypto::{DefaultRandomCoin, ElementHasher, MerkleTree},
     math::{ExtensibleField, ExtensionOf, FieldElement, StarkField, ToElements},
@@ -389,6 +390,7 @@ where
         &self.options
     }
 
+    #[maybe_async]
     fn new_trace_lde<E: FieldElement<BaseField = B>>(
         &self,
         trace_info: &TraceInfo,
@@ -399,6 +401,7 @@ where
         DefaultTraceLde::new(trace_info, main_trace, domain, partition_option)
     }
 
+    #[maybe_async]
     fn new_evaluator<'a, E: FieldElement<BaseField = B>>(
         &self,
         air: &'a GenAir<B>,
@@ -408,6 +411,7 @@ where
         DefaultConstraintEvaluator::new(air, aux_rand_elements, composition_coefficients)
     }
 
+    #[maybe_async]
     fn build_constraint_commitment<E: FieldElement<BaseField = B>>(
         &self,
         composition_poly_trace: CompositionPolyTrace<E>,
@@ -423,6 +427,7 @@ where
         )
     }
 
+    #[maybe_async]
     fn build_aux_trace<E: FieldElement<BaseField = B>>(
         &self,
         main_trace: &GenTrace<B>,
